@@ -612,6 +612,10 @@ func connectExtractTimeout(headers http.Header, meta *requestMeta) error {
 	if str == "" {
 		return nil
 	}
+	if str[0] < '0' || str[0] > '9' {
+		// ParseInt would accept a sign, which the protocol does not allow
+		return fmt.Errorf("invalid timeout %q", str)
+	}
 	timeoutInt, err := strconv.ParseInt(str, 10, 64)
 	if err != nil {
 		return err
